@@ -11,6 +11,7 @@ import (
 	"sort"
 	"strings"
 	"sync"
+	"time"
 
 	"golang.org/x/tools/go/ssa"
 )
@@ -95,6 +96,7 @@ type Engine struct {
 	wantSamples int
 	typeIDs  map[string]int
 	pure     bool
+	concrete []ReplayInput
 	rng      uint64
 	fastFeas, fastInfeas, fastChecked int
 	initMode bool
@@ -295,6 +297,9 @@ type goPanicSignal struct{}
 
 // goPanic starts unwinding with a runtime-error-like panic value.
 func (e *Engine) goPanic(st *State, msg string) {
+	if e.initMode {
+		panic(engineErr{"go panic during package init: " + msg})
+	}
 	e.startPanic(st, IfaceVal{typ: types.Typ[types.String], v: e.constString(msg)}, msg)
 	panic(goPanicSignal{})
 }
@@ -462,9 +467,14 @@ func (e *Engine) callFunction(st *State, fn *ssa.Function, args []Value, caps []
 	if fn.Origin() != nil {
 		name = fn.Origin().String()
 	}
-	if fn.Synthetic == "package initializer" && fn.Pkg != nil && !allowInit(fn.Pkg.Pkg.Path()) {
-		e.deliver(st, ret, nil)
-		return
+	if fn.Synthetic == "package initializer" && fn.Pkg != nil {
+		if os.Getenv("SYMGO_TRACE_INIT") != "" {
+			fmt.Fprintf(os.Stderr, "init call %s allow=%v\n", fn.Pkg.Pkg.Path(), allowInit(fn.Pkg.Pkg.Path()))
+		}
+		if !allowInit(fn.Pkg.Pkg.Path()) {
+			e.deliver(st, ret, nil)
+			return
+		}
 	}
 	if m, ok := e.findModel(name); ok {
 		e.stats.Stubs[name]++
@@ -657,6 +667,8 @@ func (e *Engine) fork(st *State, alts []Alt) {
 
 type forkedSignal struct{}
 
+var deadline time.Time
+
 var forkSites map[string]int
 var forkMu sync.Mutex
 
@@ -764,6 +776,11 @@ func (e *Engine) Run(init *State) {
 		e.work = e.work[:len(e.work)-1]
 		if e.cfg.MaxPaths > 0 && e.stats.Paths >= e.cfg.MaxPaths {
 			e.stats.Unsupported["max paths exceeded"]++
+			return
+		}
+		if !deadline.IsZero() && time.Now().After(deadline) {
+			e.stats.Unsupported["wall-clock budget exceeded (exploration incomplete)"]++
+			e.work = nil
 			return
 		}
 		if e.splitMode && len(st.decisions) >= e.splitDepth {
